@@ -78,7 +78,7 @@ func runCompiled(c *C16Case, rec *bufio.Writer, tmp string, idx int) (res Result
 			fail("panic", fmt.Sprint(p), "")
 		}
 	}()
-	if idx%40 == 0 {
+	if idx%40 == 1 {
 		compiledExtras(tmp, idx, fail)
 	}
 	ctx, _ := scopeOf(c.Ctx)
@@ -376,7 +376,7 @@ func runCompiled(c *C16Case, rec *bufio.Writer, tmp string, idx int) (res Result
 	return
 }
 
-// compiledExtras: scenarios that do not depend on the case at hand (made for every 40th case): a directory written by
+// compiledExtras: scenarios that do not depend on the case at hand (made with the first case of every worker, then every 40th): a directory written by
 // CompileAll is read back whole by LoadAll; one compiled object registered on two engines renders with each engine's own
 // environment; compiling one template under two names gives two compiled forms that keep their names
 func compiledExtras(tmp string, idx int, fail func(why, got, want string)) {
